@@ -147,5 +147,6 @@ int main() {
   if (hn == 3 && hd == 10) return dispatch<3, 10>(combo);
   if (hn == 1 && hd == 1) return dispatch<1, 1>(combo);
   if (hn == 1 && hd == 30) return dispatch<1, 30>(combo);
+  if (hn == 1 && hd == 8) return dispatch<1, 8>(combo);
   return 6;
 }
